@@ -2216,11 +2216,24 @@ size_t ZSTD_decompressStream(ZSTD_DStream* zds, ZSTD_outBuffer* output, ZSTD_inB
                     /* a magic number gathered over several calls is in headerBuffer, not at the start of this input */
                     U32 const legacyVersion = (zds->lhSize >= ZSTD_FRAMEIDSIZE) ?
                                 ZSTD_isLegacy(zds->headerBuffer, zds->lhSize) : ZSTD_isLegacy(istart, (size_t)(iend-istart));
-                    if (legacyVersion) {
+                    /* the window limit applies to legacy frames too : their streaming decoders size their buffers from the
+                     * frame header. When the header is not entirely there yet, keep gathering (below), as for a zstd frame. */
+                    unsigned long long legacyWindowSize = 0;
+                    size_t const legacyHeaderNeeded = !legacyVersion ? 0 :
+                                (zds->lhSize >= ZSTD_FRAMEIDSIZE) ?
+                                ZSTD_getLegacyWindowSize(legacyVersion, zds->headerBuffer, zds->lhSize, &legacyWindowSize) :
+                                ZSTD_getLegacyWindowSize(legacyVersion, istart, (size_t)(iend-istart), &legacyWindowSize);
+                    if (legacyVersion && !ZSTD_isError(legacyHeaderNeeded) && (legacyHeaderNeeded != 0)) {
+                        RETURN_ERROR_IF(legacyHeaderNeeded > ZSTD_FRAMEHEADERSIZE_MAX, GENERIC, "legacy frame header larger than expected");
+                        hSize = legacyHeaderNeeded;   /* need more input */
+                    } else if (legacyVersion) {
                         ZSTD_DDict const* const ddict = ZSTD_getDDict(zds);
                         const void* const dict = ddict ? ZSTD_DDict_dictContent(ddict) : NULL;
                         size_t const dictSize = ddict ? ZSTD_DDict_dictSize(ddict) : 0;
                         DEBUGLOG(5, "ZSTD_decompressStream: detected legacy version v0.%u", legacyVersion);
+                        FORWARD_IF_ERROR(legacyHeaderNeeded, "invalid legacy frame header");
+                        RETURN_ERROR_IF(legacyWindowSize > zds->maxWindowSize, frameParameter_windowTooLarge,
+                            "the legacy frame needs a larger window than the limit set on this decoder");
                         RETURN_ERROR_IF(zds->staticSize, memory_allocation,
                             "legacy support is incompatible with static dctx");
                         {   size_t const initResult = ZSTD_initLegacyStream(&zds->legacyContext,
@@ -2249,7 +2262,7 @@ size_t ZSTD_decompressStream(ZSTD_DStream* zds, ZSTD_outBuffer* output, ZSTD_inB
                             return hint;
                     }   }
 #endif
-                    return hSize;   /* error */
+                    if (ZSTD_isError(hSize)) return hSize;   /* error */
                 }
                 if (hSize != 0) {   /* need more input */
                     size_t const toLoad = hSize - zds->lhSize;   /* if hSize!=0, hSize > zds->lhSize */
